@@ -73,13 +73,16 @@ class Replayer:
     """A casm-tool replay process (real SierraCasmRunner) for one (source, config)."""
 
     def __init__(self, src_path, cfg):
+        # stderr goes to an unlinked temporary file: a pipe nobody drains blocks the tool once the
+        # compiler has printed more than a pipe buffer of warnings
+        import tempfile
+        self.err = tempfile.TemporaryFile(mode="w+")
         self.p = subprocess.Popen([TOOL, "replay", src_path, "--config", json.dumps(cfg)],
                                   stdin=subprocess.PIPE, stdout=subprocess.PIPE,
-                                  stderr=subprocess.PIPE, env=env_offline(), text=True)
+                                  stderr=self.err, env=env_offline(), text=True)
         line = self.p.stdout.readline()
         if not line or not json.loads(line).get("ready"):
-            err = self.p.stderr.read()
-            raise RuntimeError("replayer failed to start: " + err[-2000:])
+            raise RuntimeError("replayer failed to start: " + self.stderr_tail())
 
     def run(self, func, args, gas=None, overrides=(), trace=False):
         req = {"func": func, "args": args, "gas": gas, "overrides": list(overrides),
@@ -88,8 +91,15 @@ class Replayer:
         self.p.stdin.flush()
         line = self.p.stdout.readline()
         if not line:
-            raise RuntimeError("replayer died: " + self.p.stderr.read()[-2000:])
+            raise RuntimeError("replayer died: " + self.stderr_tail())
         return json.loads(line)
+
+    def stderr_tail(self):
+        try:
+            self.err.seek(0)
+            return self.err.read()[-2000:]
+        except Exception:
+            return ""
 
     def close(self):
         try:
